@@ -7,15 +7,18 @@ import (
 	"go/parser"
 	"go/token"
 	"go/types"
+	"regexp"
 	"sort"
 	"strconv"
 	"strings"
+	"text/template/parse"
 
 	"golang.org/x/tools/go/packages"
 	"golang.org/x/tools/go/types/typeutil"
 
 	"verif/tool/goan"
 	"verif/tool/load"
+	"verif/tool/tmpl"
 )
 
 func init() { register("C07", checkC07) }
@@ -95,6 +98,7 @@ func checkC07(c *Ctx) {
 		ev, _, _ := c.evalTemplates("")
 		c.Check(len(ev.F.Duplicates) == 0, "C07.R1.template-names", "default templates › every template name defined once", "", fmt.Sprintf("%d template trees", len(ev.F.Trees)),
 			fmt.Sprintf("defined twice: %v — which definition a caller gets depends on the iteration order of the assets map, so generated files differ from run to run", ev.F.Duplicates))
+		checkTemplateMapOrder(c, "C07.R1.template-map-order", ev)
 	}
 	for _, pk := range pkgs {
 		for _, fd := range load.AllFuncs(pk) {
@@ -388,6 +392,13 @@ var c07GlobalStores = map[string]string{}
 func checkSharedState(c *Ctx, pkgs []*packages.Package) {
 	rule := "C07.R3.shared-state"
 	c.Rule(rule, "stores to package-level variables happen only in init-time code or under a held sync.Mutex; GenOpts works on a ShallowClone of the template repository taken under the repository lock", 10)
+	checkGlobalStores(c, rule, pkgs)
+	checkTemplateRepoIsolation(c, pkgs)
+}
+
+// checkGlobalStores: every store to a package-level variable of the given packages (assignments,
+// deletes, storing methods of sync containers) runs at initialisation, under a held mutex, or is reviewed.
+func checkGlobalStores(c *Ctx, rule string, pkgs []*packages.Package) {
 	initOnly := goan.InitOnly(pkgs)
 	for _, gs := range goan.FindGlobalStores(pkgs) {
 		fn, _ := gs.Pkg.TypesInfo.Defs[gs.Fn.Name].(*types.Func)
@@ -406,7 +417,6 @@ func checkSharedState(c *Ctx, pkgs []*packages.Package) {
 			c.Bad(rule, key, pos, fmt.Sprintf("package-level variable %s.%s is written (%s) outside initialisation and without holding a lock: concurrent or repeated generations in one process share this state", gs.Var.Pkg().Name(), gs.Var.Name(), gs.Kind))
 		}
 	}
-	checkTemplateRepoIsolation(c, pkgs)
 }
 
 func (c *Ctx) orderAnalysis() *goan.OrderAnalysis {
@@ -956,4 +966,64 @@ func checkTieBreaks(c *Ctx, rule, key string, pk *packages.Package, body *ast.Bl
 		c.Check(guarded, rule, fmt.Sprintf("%s › return %s %s %s only when they differ", key, xs, be.Op, ys), c.posOf(pk, ret.Pos()), "under "+xs+" != "+ys,
 			fmt.Sprintf("the comparator answers `%s %s %s` without having tested that the two differ: elements that agree on it compare equal in both directions, the later keys are never consulted, and ties keep the order of the map the elements were collected from", xs, be.Op, ys))
 	})
+}
+
+// checkTemplateMapOrder: text/template ranges over a map in sorted key order, but the functions
+// that turn a map into a list (sprig's keys, values, pick/omit results handed to them) follow Go's
+// map iteration: their result must pass sortAlpha before it is ranged or printed.
+func checkTemplateMapOrder(c *Ctx, rule string, ev *tmpl.Evaluator) {
+	c.Rule(rule, "no template lists a map with `keys` / `values` without sorting the list (sortAlpha) in the same pipeline", 0)
+	rx := regexp.MustCompile(`(^|[\s(|])(keys|values)(\s|\)|$)`)
+	n := 0
+	for _, name := range ev.F.Names() {
+		t := ev.F.Trees[name]
+		if t == nil || t.Tree == nil || t.Tree.Root == nil {
+			continue
+		}
+		ord := 0
+		var walk func(nd parse.Node)
+		visit := func(pipe *parse.PipeNode, pos parse.Pos) {
+			if pipe == nil {
+				return
+			}
+			s := pipe.String()
+			if !rx.MatchString(s) {
+				return
+			}
+			ord++
+			n++
+			c.Check(strings.Contains(s, "sortAlpha"), rule, fmt.Sprintf("%s › %s › map listed #%d", t.Asset, name, ord), t.PosStr(pos), "sorted: "+s,
+				fmt.Sprintf("the pipeline `%s` lists the keys or values of a map in Go's map iteration order: the generated text changes from run to run", s))
+		}
+		walk = func(nd parse.Node) {
+			switch x := nd.(type) {
+			case *parse.ListNode:
+				if x != nil {
+					for _, k := range x.Nodes {
+						walk(k)
+					}
+				}
+			case *parse.ActionNode:
+				visit(x.Pipe, x.Pos)
+			case *parse.IfNode:
+				visit(x.Pipe, x.Pos)
+				walk(x.List)
+				walk(x.ElseList)
+			case *parse.RangeNode:
+				visit(x.Pipe, x.Pos)
+				walk(x.List)
+				walk(x.ElseList)
+			case *parse.WithNode:
+				visit(x.Pipe, x.Pos)
+				walk(x.List)
+				walk(x.ElseList)
+			case *parse.TemplateNode:
+				visit(x.Pipe, x.Pos)
+			}
+		}
+		walk(t.Tree.Root)
+	}
+	if n == 0 {
+		c.Ok(rule, "templates › no map is listed with keys / values", "", fmt.Sprintf("%d template trees read", len(ev.F.Trees)))
+	}
 }
